@@ -6,14 +6,15 @@ E5 — the typed core of the *retention* clause of the C08 monitor ("all numbers
 An event store may forget old events only when it has to (`MemoryEventStore.purge` runs while `nBytes > maxBytes`; the
 model's label EVICT).  A resume that names a stream the store has appended to is then answered with the rest of the log
 (or 409 while a live exchange holds the stream).  The monitor keeps three facts about the *implementation*, taken from
-its observations only: the streams of each session for which the store accepted an `Append` (`known`), whether the
-store has ever been over its size limit (`pressed`: the harness adds up the bytes of every accepted `Append` and compares
-the sum with the smallest limit that was ever in force — while the sum stays below it nothing can have been evicted
-legitimately; the evictions it reads from the real `dataList.first` are reported with that flag), and which sessions'
-transports are closed (`closed`: the `isDone` flag of the last snapshot).  It raises
-* `refusedKept` — a GET with a well-formed `Last-Event-ID` naming such a stream of an open session was answered 400
-  although the store was never over its limit: the events after that id — the final response included — have been
-  thrown away although nothing forced the store to.
+its observations only: the streams of each session for which the store accepted an `Append` (`known`), per stream the
+index up to which the store was FORCED to evict (`first`: the harness reads `nBytes`/`maxBytes` of the real store right
+before every `Append` and `SetMaxBytes` it passes on — `purge` runs only inside those two, and only while
+`nBytes > maxBytes` —, and reports every eviction it reads from the real `dataList.first` with the flag "the store was over
+its limit at such a moment since the last report"; only flagged evictions raise `first`), and which sessions' transports
+are closed (`closed`: the `isDone` flag of the last snapshot).  It raises
+* `refusedKept` — a GET with a well-formed `Last-Event-ID` `t_i` naming such a stream of an open session was answered 400
+  although the store was never forced to evict the entry after `i` (`first t ≤ i + 1`): the events after that id — the
+  final response included — have been thrown away although nothing forced the store to.
 `Mon.keepStep` is a pure function `KeepS → KObs → KeepS × Option ClauseK`; `McpModel.Resume.KeepBridge` proves that it
 raises nothing on any observation trace of the model (where every eviction is an EVICT label, i.e. forced) and what the
 clause means.  Core Lean only (linked into the driver).
@@ -27,7 +28,8 @@ structure KObs (σ : Type) where
   get : Option (Nat × Nat)          -- the record contains a GET whose Last-Event-ID is well-formed: (stream, index)
   codes : List (Nat × Nat)          -- exchanges opened by the record and answered with a bare HTTP status: (exchange, code)
   appends : List (σ × Nat)          -- (session, stream) of every `EventStore.Append` the store accepted in this record
-  forced : Bool                     -- the record reports an eviction made by a store that has been over its size limit
+  forced : List (σ × Nat × Nat)     -- evictions the record reports that a store over its size limit made:
+                                    -- (session, stream, n) = the store now holds the log of that stream from index n on
   closed : List (σ × Bool)          -- `isDone` of the sessions snapshotted after the record
 
 inductive ClauseK where
@@ -35,11 +37,11 @@ inductive ClauseK where
 deriving DecidableEq, Repr
 
 def ClauseK.text : ClauseK → String
-  | .refusedKept => "C08: a resume from a previously issued Last-Event-ID of an open session was refused (400) although the event store was never over its size limit (nothing had to be evicted): the messages after that id, the final response included, are no longer obtainable"
+  | .refusedKept => "C08: a resume from a previously issued Last-Event-ID of an open session was refused (400) although the event store was never forced (by its size limit) to evict the entry after that id: the messages after it, the final response included, are no longer obtainable"
 
 structure KeepS (σ : Type) where
   known : σ → Nat → Bool := fun _ _ => false    -- the store accepted an Append for (session, stream)
-  pressed : Bool := false                       -- the store has been over its size limit (it may have evicted)
+  first : σ → Nat → Nat := fun _ _ => 0         -- (session, stream) ↦ index up to which the store was forced to evict
   closed : σ → Bool := fun _ => false           -- the session's transport is closed (last snapshot)
 
 def keepInit {σ : Type} : KeepS σ := {}
@@ -52,15 +54,21 @@ def knownAfter (known : σ → Nat → Bool) (apps : List (σ × Nat)) : σ → 
 def closedAfter (closed : σ → Bool) (snaps : List (σ × Bool)) : σ → Bool :=
   snaps.foldl (fun h x => fun s => if s = x.1 then x.2 else h s) closed
 
-/-- a GET of this record that names a stream the store has appended to was answered 400 although the session was open
-before the record and the store has not been over its limit up to and including this record -/
+/-- the forced evictions of a record raise `first` (it never goes down) -/
+def firstAfter (first : σ → Nat → Nat) (forced : List (σ × Nat × Nat)) : σ → Nat → Nat :=
+  forced.foldl (fun f x => fun s t => if s = x.1 ∧ t = x.2.1 then max (f s t) x.2.2 else f s t) first
+
+/-- a GET of this record that names a stream the store has appended to, from index `i`, was answered 400 although the
+session was open before the record and the store was not forced — up to and including this record — to evict the entry
+after `i` (`EventStore.After(i)` reports a purge only when `i + 1 < first`) -/
 def refusedK (m : KeepS σ) (o : KObs σ) : Bool :=
   match o.get with
-  | some (t, _) => o.codes.any (fun x => x.2 == 400) && m.known o.sess t && !m.closed o.sess && !(m.pressed || o.forced)
+  | some (t, i) => o.codes.any (fun x => x.2 == 400) && m.known o.sess t && !m.closed o.sess &&
+      decide (firstAfter m.first o.forced o.sess t ≤ i + 1)
   | none => false
 
 def keepStep (m : KeepS σ) (o : KObs σ) : KeepS σ × Option ClauseK :=
-  ({ known := knownAfter m.known o.appends, pressed := m.pressed || o.forced, closed := closedAfter m.closed o.closed },
+  ({ known := knownAfter m.known o.appends, first := firstAfter m.first o.forced, closed := closedAfter m.closed o.closed },
    if refusedK m o then some .refusedKept else none)
 
 /-- a whole trace: the state after it and the first clause raised, if any -/
